@@ -14,6 +14,7 @@ import LlgVerif.Model.IntRange
 import LlgVerif.Spec.Cfg
 import LlgVerif.Model.Numeric
 import LlgVerif.Model.Inline
+import LlgVerif.Spec.Json
 open LlgVerif Drv
 
 def wordsOf (l : List Nat) : List Word := l.map (fun n => BitVec.ofNat 32 n)
@@ -40,6 +41,7 @@ structure St where
   stopSt : StopSt := StopCfg.init
   sharedTbl : List Nat := []
   cfgs : List (Nat × (Cfg.Gram Nat × Nat)) := []
+  jschemas : List (Nat × Js.Json) := []
 
 /-- DFA over byte classes: `cls[b]` in `0..k`, `trans[q*k + c]` = successor, `≥ n` = dead. -/
 structure TDfa where
@@ -472,6 +474,50 @@ def handleOpt (args : List String) : String :=
     | _, _, _, _, _ => "bad-op"
   | _ => "bad-op"
 
+/-- JSON value from an s-expression: `n t f (num <neg> <mant> <exp>) (s <hex>) (a v ...) (o (<hexkey> v) ...)`;
+`-` stands for the empty hex string -/
+partial def jsonOfSexp : SExp → Option Js.Json
+  | .atom "n" => some .null
+  | .atom "t" => some (.bool true)
+  | .atom "f" => some (.bool false)
+  | .list [.atom "num", .atom neg, .atom mant, .atom exp] => do
+    let m ← mant.toNat?
+    let e ← (if exp.startsWith "-" then (exp.drop 1).toString.toNat?.map (fun k => -(k : Int)) else exp.toNat?.map (fun k => (k : Int)))
+    pure (.num { neg := neg = "1", mant := m, exp := e })
+  | .list [.atom "s", .atom h] => do
+    let bs ← parseHex? (if h = "-" then "" else h)
+    let str ← String.fromUTF8? (ByteArray.mk bs.toArray)
+    pure (.str str)
+  | .list (.atom "a" :: xs) => do
+    let vs ← xs.mapM jsonOfSexp
+    pure (.arr vs)
+  | .list (.atom "o" :: kvs) => do
+    let ps ← kvs.mapM (fun kv => match kv with
+      | .list [.atom k, v] => do
+        let bs ← parseHex? (if k = "-" then "" else k)
+        let ks ← String.fromUTF8? (ByteArray.mk bs.toArray)
+        let v ← jsonOfSexp v
+        pure (ks, v)
+      | _ => none)
+    pure (.obj ps)
+  | _ => none
+
+/-- `json schema <id> <sexp>`; `json v <id> <sexp>` -> 1 / 0 (S5 validator, fuel 64) -/
+def handleJson (st : St) (args : List String) : St × String :=
+  match args with
+  | "schema" :: id :: rest =>
+    match parseNat? id, (parseSexp (" ".intercalate rest)).bind jsonOfSexp with
+    | some id, some s => ({ st with jschemas := (id, s) :: st.jschemas.filter (·.1 ≠ id) }, "ok")
+    | _, _ => (st, "bad-op")
+  | "v" :: id :: rest =>
+    match parseNat? id, (parseSexp (" ".intercalate rest)).bind jsonOfSexp with
+    | some id, some v =>
+      match st.jschemas.find? (·.1 = id) with
+      | some (_, s) => (st, showBool (Js.validate s 64 s v))
+      | none => (st, "bad-op")
+    | _, _ => (st, "bad-op")
+  | _ => (st, "bad-op")
+
 def parseOptInt? (s : String) : Option (Option Int) :=
   if s = "none" then some none
   else if s.startsWith "-" then (s.drop 1).toString.toNat?.map (fun n => some (-(n : Int)))
@@ -566,6 +612,7 @@ def step (st : St) (line : String) : St × String :=
   | "num" :: args => (st, handleNum args)
   | "cfg" :: args => handleCfg st args
   | "opt" :: args => (st, handleOpt args)
+  | "json" :: args => handleJson st args
   | "rb" :: args => handleRb st args
   | ["reset"] => ({}, "ok")
   | _ => (st, "bad-op")
